@@ -242,6 +242,13 @@ pub fn fdiff_weights(d: f64, n: usize) -> Vec<f64> {
 /// Expected output of `stat` for every position of `x` (single-series statistics).
 /// `len_for_clamp`: the series length (extrema family clamps the window to it).
 pub fn expect_series(stat: Stat, x: &Series, w: usize, mp: Option<usize>) -> Vec<Exp> {
+    expect_series_at(stat, x, w, mp, None)
+}
+
+/// As `expect_series`, but only the listed positions are evaluated (all others are left unspecified):
+/// for series of tens of thousands of elements with windows of the same order, where the from-scratch
+/// evaluation of every position would be quadratic.
+pub fn expect_series_at(stat: Stat, x: &Series, w: usize, mp: Option<usize>, positions: Option<&[usize]>) -> Vec<Exp> {
     let len = x.len();
     let pm = prefix_max_abs(x);
     let mp_eff = min_periods_eff(w, mp);
@@ -249,6 +256,12 @@ pub fn expect_series(stat: Stat, x: &Series, w: usize, mp: Option<usize>) -> Vec
     let mut out = Vec::with_capacity(len);
     let mut vals: Vec<f64> = Vec::with_capacity(w.min(len) + 1);
     for i in 0..len {
+        if let Some(ps) = positions {
+            if !ps.contains(&i) {
+                out.push(Exp::unspec());
+                continue;
+            }
+        }
         let lo = lo_of(i, w);
         vals.clear();
         for j in lo..=i {
